@@ -397,3 +397,87 @@ def replay_rel(case, acc, what):
         check_cross(acc, task, state, tuple(lo_), tuple(hi_))
     else:
         check_nested(acc, task, func, state, cfg)
+
+
+# ------------------------------------------------------------------------------------ C08 / C09 / C12 (edge relations)
+def check_edge(acc, pid, task, func, state, new_state, label, cfg, keys=None):
+    """func(state) and func(new_state) must agree on `keys` (all keys if None) to 1e-12 relative."""
+    if not (in_domain(acc, func, state, cfg) and in_domain(acc, func, new_state, cfg)):
+        return
+    acc.transitions += 2
+    case = dict(case_of(task, func, state, cfg), edge=label, ref2=new_state[0], est2=new_state[1])
+    try:
+        g1 = func.call(state, cfg)
+    except Exception as ex:  # noqa
+        acc.counters["edge.source_state_raises"] += 1     # another property's business (C14)
+        return
+    try:
+        g2 = func.call(new_state, cfg)
+    except Exception as ex:  # noqa
+        acc.violation("invariant:%s" % label.split(":")[0], func.name, case,
+                      observed="transformed input raised %s: %s" % (type(ex).__name__, ex))
+        return
+    acc.outcome(tuple(round(g1[k], 9) if g1[k] == g1[k] else "nan" for k in func.keys))
+    for k in (keys or func.keys):
+        a, b = g1[k], g2[k]
+        if a != a and b != b:
+            continue
+        if not (abs(a - b) <= 1e-12 * max(1.0, abs(a), abs(b))):
+            acc.violation("invariant:%s" % label.split(":")[0], func.name, case, observed={k: [a, b]},
+                          expected="equal")
+            return
+
+
+def shard_edges(arg):
+    """arg = (pid, taskname, which, tier, phase, lo, hi, kinds): every state x every edge generator of the listed
+    kinds (Task.edges[kind] = dict(apply=fn(state)->[(label,new_state)], funcs=[names]|None, keys=[...]|None,
+    cfgs=[...]|None))."""
+    pid, taskname, which, tier, phase, lo, hi, kinds = arg
+    task = base.load(taskname)
+    acc = core.Acc(pid)
+    sp = space(taskname, which, tier, phase)
+    edges = getattr(task, "edges", {})
+    for state in sp[lo::hi]:
+        acc.states += 1
+        nt = False
+        for kind in kinds:
+            spec = edges.get(kind)
+            if not spec:
+                continue
+            for label, new_state in spec["apply"](state):
+                if new_state == state:
+                    continue
+                nt = True
+                acc.counters["edges:%s" % kind] += 1
+                for func in task.funcs:
+                    if spec.get("funcs") is not None and func.name not in spec["funcs"]:
+                        continue
+                    if spec.get("ok") is not None and not spec["ok"](state, func.name):
+                        acc.counters["edges_outside_precondition:%s" % kind] += 1
+                        continue
+                    for cfg in (spec.get("cfgs") or [{}]):
+                        acc.tick(lambda: dict(case_of(task, func, state, cfg), edge=label, ref2=new_state[0],
+                                              est2=new_state[1]))
+                        check_edge(acc, pid, task, func, state, new_state, "%s:%s" % (kind, label), cfg,
+                                   spec.get("keys"))
+        if nt:
+            acc.nontrivial += 1
+    if lo == 0 and sp:
+        acc.sample(case_of(task, task.funcs[0], sp[len(sp) // 2], {}))
+    return acc
+
+
+def edge_plan(pid, taskname, tier, phase, kinds, nshards=64):
+    n = len(space(taskname, "pair", tier, phase))
+    nshards = max(1, min(nshards, n))
+    return [(pid, taskname, "pair", tier, phase, k, nshards, tuple(kinds)) for k in range(nshards)]
+
+
+def replay_edge(case, acc, pid):
+    task = base.load(case["task"])
+    func = task.func(case["func"])
+    state = (base.tup(case["ref"]), base.tup(case["est"]))
+    new_state = (base.tup(case["ref2"]), base.tup(case["est2"]))
+    kind = case["edge"].split(":")[0]
+    spec = getattr(task, "edges", {}).get(kind, {})
+    check_edge(acc, pid, task, func, state, new_state, case["edge"], case.get("cfg", {}), spec.get("keys"))
